@@ -51,3 +51,8 @@ def bits_after_other_view(var, k1, newraw, key, value):
     var.raw = newraw
     var.bits[key] = value
     return var.raw
+
+
+def subscribe_n(pm, n):
+    for i in range(n):
+        pm.subscribe()
